@@ -268,13 +268,17 @@ def dup_manifest_case(ctx, drv):
         for mp, t in texts.items():
             suffix = os.path.splitext(mp)[1] if os.path.splitext(mp)[1] in trees.SUFFIXES else ''
             open(os.path.join(root, mp), 'wb').write(compress(suffix, t.encode()))
+        # a Manifest of the chain damaged harmlessly (a trailing blank line: it parses as before, its entry is stale - finding F28)
+        if rng.random() < 0.35:
+            mp = f'{a}/Manifest{fmt}'
+            open(os.path.join(root, mp), 'wb').write(compress(fmt, (texts[mp] + '\n').encode()))
         # the change
-        k = rng.choice(['change', 'add', 'delete'])
+        k = rng.choice(['change', 'add', 'delete', 'none'])
         if k == 'change':
             open(os.path.join(root, a, b, 'f1'), 'ab').write(b'+changed')
         elif k == 'add':
             open(os.path.join(root, a, b, 'new'), 'wb').write(b'new')
-        else:
+        elif k == 'delete':
             os.unlink(os.path.join(root, a, b, 'f2'))
         path = rng.choice(['', a, f'{a}/{b}', f'{a}/{b}'])
         o = {'hashes': rng.choice([['SHA1'], ['SHA1', 'SHA256']]), 'profile': 'default'}
